@@ -682,7 +682,8 @@ struct WrapInterp : Sink
 				FaultArm arm;
 				if(fl == 0) { ListenerFn f(id); lh[id] = list->append(f); }
 				else if(fl == 1) { ListenerFn f(id); CondFn c(id); lh[id] = list->append(eventpp::conditionalFunctor(f, c)); }
-				else { LongListenerFn f(id); lh[id] = list->append(eventpp::argumentAdapter<void (long, const Payload &)>(f)); }
+				else if(id & 1) { LongListenerFn f(id); lh[id] = list->append(eventpp::argumentAdapter<void (long, const Payload &)>(f)); }
+				else { std::function<void (long, const Payload &)> sf((LongListenerFn(id))); lh[id] = list->append(eventpp::argumentAdapter(sf)); }   // the overload deducing the prototype from a std::function
 			}
 			if(fl == 3) sitems.push_back(it); else items.push_back(it);
 			slotKind[id] = fl == 3 ? 2 : 1;
